@@ -8,22 +8,22 @@ From RtcmProofs Require Import BuilderProofs.
 Import ListNotations.
 Open Scope Z_scope.
 
-Notation reach := (reach sig_table ssr_table_1059 ssr_table_1065 messages).
+Notation reach := (reach sig_table ssr_table_1059 ssr_table_1065 SAT_CAP_1059 SAT_CAP_1065 messages).
 
 (** For every builder reachable from a new one by any finite sequence of builds -- successful ones, and
     failed ones after which the buffer may hold arbitrary bytes ([reach_garbage]) -- the result for any
     message equals the result of a fresh builder: the same frame bytes, or the same error. *)
 Theorem C12_history : forall b m, reach b -> snd (t_build b m) = snd (t_build builder_new m).
-Proof. exact (history_independent sig_table ssr_table_1059 ssr_table_1065 messages). Qed.
+Proof. exact (history_independent sig_table ssr_table_1059 ssr_table_1065 SAT_CAP_1059 SAT_CAP_1065 messages). Qed.
 
 (** in particular for every list of earlier messages built with the executable model *)
 Theorem C12_history_fold : forall ms m,
   snd (t_build (fold_left (fun b x => fst (t_build b x)) ms builder_new) m) = snd (t_build builder_new m).
-Proof. exact (history_fold sig_table ssr_table_1059 ssr_table_1065 messages). Qed.
+Proof. exact (history_fold sig_table ssr_table_1059 ssr_table_1065 SAT_CAP_1059 SAT_CAP_1065 messages). Qed.
 
 (** the invariant behind it: 1029 bytes starting with 0xD3, all zero until the first build *)
 Theorem C12_inv_reachable : forall b, reach b -> binv b.
-Proof. exact (reach_inv sig_table ssr_table_1059 ssr_table_1065 messages). Qed.
+Proof. exact (reach_inv sig_table ssr_table_1059 ssr_table_1065 SAT_CAP_1059 SAT_CAP_1065 messages). Qed.
 
 (** non-vacuity: after a failed build (Empty has no wire form) and a successful one, a 1005 message is
     built exactly as by a fresh builder *)
